@@ -285,9 +285,10 @@ struct Outcome {
     pre: String,
     log: ShimLog,
     wall_ms: u64,
+    retried: Option<String>,
 }
 
-fn run_job(st: &Setup, j: &Job) -> Outcome {
+fn run_job_once(st: &Setup, j: &Job) -> Outcome {
     let log_path = format!("{}/{}.log", st.tmp, j.tag);
     let _ = std::fs::remove_file(&log_path);
     let path = format!("{}:{}", st.shim_dir, std::env::var("PATH").unwrap_or_default());
@@ -357,7 +358,7 @@ fn run_job(st: &Setup, j: &Job) -> Outcome {
                 // the shim's emitter (re-parented, hence outside the tree) has not delivered yet
                 last_progress = Instant::now();
             } else {
-                hang = Some(format!("blocked: no reply, every process asleep and no CPU used for {} ms", st.stall_ms));
+                hang = Some(format!("blocked: no reply, every process asleep and no CPU used for {} ms; {}", st.stall_ms, tree_description(pid)));
             }
         }
         if hang.is_none() && t0.elapsed() > Duration::from_millis(st.max_ms) {
@@ -399,6 +400,20 @@ fn run_job(st: &Setup, j: &Job) -> Outcome {
         let _ = std::fs::remove_file(&log_path);
     }
     out
+}
+
+/// A run that ends as `blocked` (nobody computes, nobody answers) is repeated once: a genuine block is
+/// deterministic and blocks again; anything else was a scheduling accident of a loaded machine and the
+/// second outcome is taken (the first is kept in `retried`).
+fn run_job(st: &Setup, j: &Job) -> Outcome {
+    let first = run_job_once(st, j);
+    if first.fin.starts_with("(hang \"blocked") {
+        let mut second = run_job_once(st, j);
+        second.retried = Some(first.fin.clone());
+        second.wall_ms += first.wall_ms;
+        return second;
+    }
+    first
 }
 
 // ------------------------------------------------------------------------------------------ systems
@@ -842,6 +857,10 @@ fn parent(args: &Args) {
             stats.bump("point-kind", &format!("{}:{}", p.engine, kind));
             stats.bump("fault-kind", &job.fault);
             stats.add("wall-ms-total", o.wall_ms);
+            if let Some(first) = &o.retried {
+                stats.bump("blocked-runs-repeated", if class_of(&o.fin) == "hang" { "blocked again (genuine)" } else { "second run finished (scheduling accident)" });
+                let _ = first;
+            }
             stats.bump("solver-process", if o.log.live_starts > 0 { "live" } else { "recorded-replies" });
             distinct.insert(line[line.find("(engine").unwrap_or(0)..].to_string());
             if fk != "error" || ji % 7 == 0 {
@@ -925,6 +944,17 @@ fn tree_activity(root: u32, seen: &mut std::collections::HashSet<u32>) -> (bool,
         cpu += proc_cpu_ms(p);
     }
     (busy, cpu)
+}
+
+/// "pid:comm:state:wchan" of every process of the tree (diagnostics of a blocked run)
+fn tree_description(root: u32) -> String {
+    let mut parts = vec![];
+    for p in tree_pids(root) {
+        let comm = std::fs::read_to_string(format!("/proc/{p}/comm")).unwrap_or_default().trim().to_string();
+        let wchan = std::fs::read_to_string(format!("/proc/{p}/wchan")).unwrap_or_default().trim().to_string();
+        parts.push(format!("{p}:{comm}:{}:{wchan}", proc_state(p).unwrap_or('?')));
+    }
+    format!("tree=[{}]", parts.join(" "))
 }
 
 /// is there a live `solver-shim --shim-emit <hex> <delay> <shim pid>` whose shim belonged to this run?
